@@ -108,6 +108,15 @@ def make(dmmod, init_name):
 # ----------------------------------------------------------------------------------------------
 # operations
 
+def compatible(model, col, value):
+    """pandas refuses a value whose type does not fit the column's dtype; only generate assignments that fit
+    (operation arguments must be valid for the current table)."""
+    vals = [d.get(col) for _, d in model.rows if d.get(col) is not None]
+    if isinstance(value, str):
+        return bool(vals) and all(isinstance(v, str) for v in vals)
+    return all(isinstance(v, (int, float)) and not isinstance(v, bool) for v in vals)
+
+
 def mutation_ops(model):
     """Mutations enabled in this model state (arguments always valid for the current table)."""
     ops = []
@@ -117,13 +126,12 @@ def mutation_ops(model):
     if n:
         picks = sorted({labels[0], labels[-1]})
     for l in picks:
-        if "stmt_id" in model.cols:
+        if "stmt_id" in model.cols and compatible(model, "stmt_id", 3):
             ops.append(("modify_element", l, "stmt_id", 3))
-        if "operation" in model.cols and all(isinstance(d.get("operation"), (str, type(None))) for _, d in model.rows) \
-                and any(isinstance(d.get("operation"), str) for _, d in model.rows):
+        if "operation" in model.cols and compatible(model, "operation", "assign"):
             # (pandas refuses a string in a numeric column; arguments must be valid for the current table)
             ops.append(("modify_element", l, "operation", "assign"))
-    if n and model.cols == COLS:
+    if n and model.cols == COLS and all(compatible(model, c, v) for c, v in zip(COLS, (3, "assign", 5))):
         ops.append(("modify_row", 0, (3, "assign", 5)))
         if n > 1:
             ops.append(("modify_row", n - 1, (2, "block_end", 5)))
